@@ -933,6 +933,7 @@ template <class M, class T, int N> static int invert_family (vp::Ctx& c, const s
     return TH_NONE;
 }
 
+template <class M, class T, int N> static void invert_eval (vp::Ctx& c, const char* tn, const M& m, int cls, int mode, GInfo* gout = nullptr);
 template <class M, class T, int N> static void invert_case (vp::Ctx& c, const char* tn)
 {
     vp::Src& s = c.s;
@@ -960,6 +961,11 @@ template <class M, class T, int N> static void invert_case (vp::Ctx& c, const ch
         }
     }
     VP_NOTE (c, tn << " m=" << mstr (m, N) << " class=" << cls << " mode=" << mode);
+    invert_eval<M, T, N> (c, tn, m, cls, mode);
+}
+// the rules of section 3 applied to one matrix (shared by invert* and invert_unitdet*; draws nothing)
+template <class M, class T, int N> static void invert_eval (vp::Ctx& c, const char* tn, const M& m, int cls, int mode, GInfo* gout)
+{
     // which block does the determinant form guard?  (documented fast path: last column (0,..,0,1))
     bool affine = false;
     if (N > 2)
@@ -1021,6 +1027,7 @@ template <class M, class T, int N> static void invert_case (vp::Ctx& c, const ch
         if (!g.skip) c.label (qabs (g.D) >= 1 ? IL_DET_GE1 : IL_DET_LT1);
         if (g.wellcond) c.label (IL_WELLCOND);
     }
+    if (gout) *gout = g;
     std::string T0 = tn;
     // ---- determinant family
     M   X;
@@ -1084,6 +1091,271 @@ VP_RANDOM (invert44_d, 300000, 6000000, IL_RULE) { invert_case<M44d, double, 4> 
 VP_LABELS (invert44_d, IL_LABELS)
 VP_REQUIRE_LABELS (invert44_d, IL_REQ, "affine_path", "affine_perturbed_1ulp", "gauss_jordan_form_threw")
 VP_FUZZABLE (invert44_d)
+
+// ---- 3b. guarded determinants that are EXACTLY +-2^k (mostly +-1) built from entries of widely different magnitude
+//
+// The classes of gen_block reach |det| == 1 only with ordinary entries, and huge cofactors only with tiny determinants.
+// Here both meet: products of powers of two (2^e x 2^-e), power-of-two row/column scalings of small integer
+// unimodular matrices, and (permuted) unitriangular matrices with huge off-diagonal entries, with entries / cofactors
+// at and beyond 1/min and sqrt(max).  The determinant the code computes is then exact (no rounding as long as no
+// product over- or underflows), so the |r| >= 1 boundary of every copy is evaluated with |r| exactly 1 (or 2^k).
+// The rules are those of invert_eval (pairing of the six spellings of both families, throw => unchecked returns the
+// identity, throw justified by exact |cofactor/det| >= max/4, well-conditioned never throws).
+enum
+{
+    IU_PERM = IL_IDENTITY_IN + 1,
+    IU_UNIMOD,
+    IU_TRI,
+    IU_DET_PM1,
+    IU_DET_POW2,
+    IU_COF_GE_INVMIN,
+    IU_ENTRY_GE_SQRTMAX,
+    IU_TRANS_HUGE
+};
+#define IU_LABELS IL_LABELS, "scaled_signed_permutation", "scaled_integer_unimodular", "permuted_unitriangular_huge_offdiagonal", "guarded_det_exactly_pm1", "guarded_det_exactly_pm_2^k_k_nonzero", "det_exactly_pm1_and_finite_cofactor_ge_1/min", "entry_ge_sqrt_max", "huge_translation"
+
+// n exponents in [-E,E] with the given sum (|total| <= n*E): uniform / balanced / some pinned near -E or +E and the
+// rest balanced; the start position is rotated
+static void split_exponents (vp::Src& s, int n, int total, int E, int* out)
+{
+    int e[8];
+    int style = (int) s.below (4);
+    int pinned = (int) s.range (1, n > 1 ? n - 1 : 1);
+    int R = total;
+    for (int i = 0; i < n; ++i)
+    {
+        int rem = n - i;
+        int lo = std::max (-E, R - (rem - 1) * E), hi = std::min (E, R + (rem - 1) * E);
+        int v;
+        if (rem == 1)
+            v = R;
+        else if (style == 0)
+            v = (int) s.range (lo, hi);
+        else if (style >= 2 && i < pinned)
+        {
+            int j = (int) s.range (0, 2);
+            v     = style == 2 ? -E + j : E - j;
+        }
+        else
+        {
+            int j = (int) s.range (-2, 2);
+            v     = R / rem + j;
+        }
+        if (v < lo) v = lo;
+        if (v > hi) v = hi;
+        e[i] = v;
+        R -= v;
+    }
+    int rot = (int) s.below (n);
+    for (int i = 0; i < n; ++i)
+        out[(i + rot) % n] = e[i];
+}
+static void random_perm (vp::Src& s, int K, int* perm)
+{
+    for (int i = 0; i < 4; ++i)
+        perm[i] = i;
+    for (int i = K - 1; i > 0; --i)
+        std::swap (perm[i], perm[(int) s.below (i + 1)]);
+}
+// a huge (or boundary) magnitude: around 1/min, sqrt(max), max, or anything
+template <class T> static T huge_mag (vp::Src& s)
+{
+    int j = (int) s.range (-2, 2);
+    switch (s.below (6))
+    {
+        case 0: return pow2<T> (-KT<T>::emin () + j);      // 1/min = 2^126 / 2^1022 and neighbours
+        case 1: return pow2<T> ((KT<T>::emax () + 1) / 2 + j); // sqrt(max) ~ 2^64 / 2^512
+        case 2: return pow2<T> (KT<T>::emax () - (j < 0 ? -j : j));
+        case 3: return KT<T>::max ();
+        case 4: return bump ((T) 1 / KT<T>::min (), j);
+        default: return gmag<T> (s);
+    }
+}
+// K x K block with determinant exactly +-2^k (as long as no entry under-/overflows); returns the class label
+template <class T> static int gen_unitdet_block (vp::Src& s, int K, T q[4][4])
+{
+    for (int i = 0; i < 4; ++i)
+        for (int j = 0; j < 4; ++j)
+            q[i][j] = 0;
+    int k;
+    switch (s.below (4))
+    {
+        case 0:
+        case 1: k = 0; break;
+        case 2: k = (int) s.range (-3, 3); break;
+        default: k = (int) s.range (-40, 40); break;
+    }
+    int cls = (int) s.below (3);
+    int sigma[4], tau[4], ex[8];
+    if (cls == 0) // signed permutation, entries 2^e_i with sum e_i == k
+    {
+        random_perm (s, K, tau);
+        split_exponents (s, K, k, KT<T>::emax (), ex);
+        for (int i = 0; i < K; ++i)
+        {
+            T d = pow2<T> (ex[i]);
+            if (s.coin ()) d = -d;
+            q[i][tau[i]] = d;
+        }
+        return IU_PERM;
+    }
+    if (cls == 1) // D1 * U * D2, U = small integer unimodular, D1, D2 = powers of two
+    {
+        int u[4][4];
+        random_perm (s, K, tau);
+        for (int i = 0; i < 4; ++i)
+            for (int j = 0; j < 4; ++j)
+                u[i][j] = 0;
+        for (int i = 0; i < K; ++i)
+            u[i][tau[i]] = s.coin () ? -1 : 1;
+        int nops = (int) s.range (1, 4);
+        for (int o = 0; o < nops; ++o)
+        {
+            int a = (int) s.below (K);
+            int b = (int) s.below (K - 1);
+            int t = (int) s.range (-2, 2);
+            if (b >= a) ++b;
+            for (int j = 0; j < K; ++j)
+                u[a][j] += t * u[b][j];
+        }
+        split_exponents (s, 2 * K, k, KT<T>::emax () / 2, ex);
+        for (int i = 0; i < K; ++i)
+            for (int j = 0; j < K; ++j)
+                q[i][j] = finite_clamp ((T) std::ldexp ((T) u[i][j], ex[i] + ex[K + j]));
+        return IU_UNIMOD;
+    }
+    // permuted unitriangular: diagonal +-2^e_i (sum k, |e_i| <= 20, mostly 0), huge entries above it
+    {
+        T   t[4][4];
+        int E = s.coin () ? 0 : 20;
+        random_perm (s, K, sigma);
+        random_perm (s, K, tau);
+        split_exponents (s, K, (k > K * E || k < -K * E) ? 0 : k, E, ex);
+        for (int i = 0; i < K; ++i)
+            for (int j = 0; j < K; ++j)
+            {
+                t[i][j] = 0;
+                if (i == j)
+                {
+                    t[i][j] = pow2<T> (ex[i]);
+                    if (s.chance (64)) t[i][j] = -t[i][j];
+                }
+                else if (i < j && !s.chance (64))
+                {
+                    t[i][j] = huge_mag<T> (s);
+                    if (s.coin ()) t[i][j] = -t[i][j];
+                }
+            }
+        bool transpose = s.coin ();
+        for (int i = 0; i < K; ++i)
+            for (int j = 0; j < K; ++j)
+                q[sigma[i]][tau[j]] = transpose ? t[j][i] : t[i][j];
+        return IU_TRI;
+    }
+}
+
+template <class M, class T, int N> static void invert_unitdet_case (vp::Ctx& c, const char* tn)
+{
+    vp::Src& s = c.s;
+    T        q[4][4];
+    M        m; // identity
+    int      mode        = N == 2 ? 0 : (int) s.below (3);
+    bool     want_affine = N > 2 && mode >= 1;
+    int      K           = want_affine ? N - 1 : N;
+    int      cls         = gen_unitdet_block<T> (s, K, q);
+    for (int i = 0; i < K; ++i)
+        for (int j = 0; j < K; ++j)
+            m[i][j] = q[i][j];
+    bool trans_huge = false;
+    if (want_affine)
+        for (int j = 0; j < N - 1; ++j)
+        {
+            int w = (int) s.below (4);
+            T   v;
+            if (w == 0)
+                v = (T) 0;
+            else if (w == 1)
+                v = gen::nice<T> (s);
+            else if (w == 2)
+                v = gsigned<T> (s);
+            else
+            {
+                v          = huge_mag<T> (s);
+                trans_huge = true;
+            }
+            if (s.coin ()) v = -v;
+            m[N - 1][j] = v;
+        }
+    VP_NOTE (c, tn << " m=" << mstr (m, N) << " unit-det class=" << cls << " mode=" << mode);
+    c.label (cls);
+    if (trans_huge) c.label (IU_TRANS_HUGE);
+    // exact determinant and cofactors of the block the determinant form guards (quad: exact for these entries)
+    bool guarded = N != 4 || want_affine;
+    if (guarded)
+    {
+        quad x[3][3], D, maxc = 0, maxe = 0;
+        for (int i = 0; i < K; ++i)
+            for (int j = 0; j < K; ++j)
+            {
+                x[i][j] = (quad) m[i][j];
+                maxe    = qmax (maxe, qabs (x[i][j]));
+            }
+        if (K == 2)
+        {
+            D    = x[0][0] * x[1][1] - x[1][0] * x[0][1];
+            maxc = maxe;
+        }
+        else
+        {
+            D = 0;
+            for (int i = 0; i < 3; ++i)
+                for (int j = 0; j < 3; ++j)
+                {
+                    int  r0 = i == 0 ? 1 : 0, r1 = i == 2 ? 1 : 2, c0 = j == 0 ? 1 : 0, c1 = j == 2 ? 1 : 2;
+                    quad mn = x[r0][c0] * x[r1][c1] - x[r1][c0] * x[r0][c1];
+                    maxc    = qmax (maxc, qabs (mn));
+                    if (i == 0) D += (j == 1 ? -1 : 1) * x[0][j] * mn;
+                }
+        }
+        bool finite_cof = maxc <= (quad) KT<T>::max ();
+        if (qabs (D) == 1)
+        {
+            c.label (IU_DET_PM1);
+            if (finite_cof && maxc >= 1 / (quad) KT<T>::min ())
+            {
+                c.label (IU_COF_GE_INVMIN);
+                c.nt ();
+            }
+        }
+        else if (D != 0)
+        {
+            quad aD = qabs (D);
+            if (aD <= (quad) 1e4000L && aD >= (quad) 1e-4000L && aD == (quad) std::ldexp (1.0L, orc::ilogbq_ (aD))) c.label (IU_DET_POW2);
+        }
+        if (maxe >= (quad) std::sqrt ((double) KT<T>::max ())) c.label (IU_ENTRY_GE_SQRTMAX);
+    }
+    invert_eval<M, T, N> (c, tn, m, -1, want_affine ? 2 : 0);
+}
+#define IU_RULE "matrix (or its affine block + translation row from {0, nice, any magnitude, huge}) whose guarded determinant is exactly +-2^k (k = 0 half of the time, else |k| <= 3 / <= 40) from 3 classes: signed permutation of powers of two 2^e_i with sum e_i = k (|e_i| up to emax; uniform / balanced / some pinned within 2 of -emax or +emax), D1*U*D2 with U a small integer unimodular matrix (signed permutation + 1..4 integer row operations) and power-of-two row/column scalings (|e| <= emax/2, same splits), row/column-permuted (transposed) unitriangular matrix with diagonal +-2^e (|e| <= 20, mostly 0) and off-diagonal entries from {1/min x 2^+-2, 1/min +-2ulp, sqrt(max) x 2^+-2, max / 2^0..2, max, any magnitude}; rules of invert*; non-trivial = a checked form threw, or |det| exactly 1 with a finite cofactor >= 1/min, or within 2^8 of the guard"
+#define IU_REQ "scaled_signed_permutation", "scaled_integer_unimodular", "permuted_unitriangular_huge_offdiagonal", "guarded_det_exactly_pm1", "guarded_det_exactly_pm_2^k_k_nonzero", "det_exactly_pm1_and_finite_cofactor_ge_1/min", "entry_ge_sqrt_max"
+VP_RANDOM (invert_unitdet22_f, 150000, 3000000, IU_RULE) { invert_unitdet_case<M22f, float, 2> (c, "M22f"); }
+VP_LABELS (invert_unitdet22_f, IU_LABELS)
+VP_REQUIRE_LABELS (invert_unitdet22_f, IU_REQ, "general_path")
+VP_RANDOM (invert_unitdet22_d, 150000, 3000000, IU_RULE) { invert_unitdet_case<M22d, double, 2> (c, "M22d"); }
+VP_LABELS (invert_unitdet22_d, IU_LABELS)
+VP_REQUIRE_LABELS (invert_unitdet22_d, IU_REQ, "general_path")
+VP_RANDOM (invert_unitdet33_f, 150000, 3000000, IU_RULE) { invert_unitdet_case<M33f, float, 3> (c, "M33f"); }
+VP_LABELS (invert_unitdet33_f, IU_LABELS)
+VP_REQUIRE_LABELS (invert_unitdet33_f, IU_REQ, "general_path", "affine_path", "huge_translation")
+VP_RANDOM (invert_unitdet33_d, 150000, 3000000, IU_RULE) { invert_unitdet_case<M33d, double, 3> (c, "M33d"); }
+VP_LABELS (invert_unitdet33_d, IU_LABELS)
+VP_REQUIRE_LABELS (invert_unitdet33_d, IU_REQ, "general_path", "affine_path", "huge_translation")
+VP_RANDOM (invert_unitdet44_f, 150000, 3000000, IU_RULE) { invert_unitdet_case<M44f, float, 4> (c, "M44f"); }
+VP_LABELS (invert_unitdet44_f, IU_LABELS)
+VP_REQUIRE_LABELS (invert_unitdet44_f, IU_REQ, "general_path", "affine_path", "huge_translation")
+VP_RANDOM (invert_unitdet44_d, 150000, 3000000, IU_RULE) { invert_unitdet_case<M44d, double, 4> (c, "M44d"); }
+VP_LABELS (invert_unitdet44_d, IU_LABELS)
+VP_REQUIRE_LABELS (invert_unitdet44_d, IU_REQ, "general_path", "affine_path", "huge_translation")
 
 // ===========================================================================
 // 4. Frustum: aspectExc, projectionMatrixExc, localToScreenExc, projectPointToScreenExc, screenRadiusExc,
@@ -1754,6 +2026,183 @@ VP_RANDOM (frustum_depth_d, 400000, 8000000, FDEP_RULE) { frustum_depth_case<dou
 VP_LABELS (frustum_depth_d, FDEP_LABELS)
 VP_REQUIRE_LABELS (frustum_depth_d, FDEP_REQ)
 VP_FUZZABLE (frustum_depth_d)
+
+// ---- 4c'. ZToDepthExc / DepthToZExc over the full range of their integer (long) arguments
+//
+// frustum_depth_* keeps |zmin|, |zmax| <= 2^30.  Here the z-buffer range runs over everything a `long` argument can
+// express without signed overflow inside the functions (|values| <= 2^60): ranges wider than INT_MAX and UINT_MAX
+// (0..4294967295, -2^31..2^31-1, 0..3e9, widths k*2^32 +- small, up to 2^61), zmin > zmax, equal, negative.
+// Only what the property states is asserted - the two forms agree bit-for-bit whenever the checked form returns,
+// the exception type, a really empty range (zmax == zmin) throws, no throw on a standard frustum for an in-range zval
+// of a range that fits an int - never a model of how the range is narrowed inside the functions.
+// Measured on the unchanged tree: both ZToDepth forms store zmax - zmin in an `int` (wraps modulo 2^32), both DepthToZ
+// forms in a `long`; within each pair the two forms agree for every class generated here.  Observed, not asserted:
+// for zmax - zmin a non-zero multiple of 2^32 ZToDepthExc throws "zmax == zmin" while ZToDepth divides by T(0).
+enum
+{
+    ZR_THREW_Z,
+    ZR_THREW_D,
+    ZR_STANDARD,
+    ZR_ORTHO,
+    ZR_PERSP,
+    ZR_W_ZERO,
+    ZR_W_NEG,
+    ZR_W_FITS_INT,
+    ZR_W_GT_INTMAX,
+    ZR_W_GT_UINTMAX,
+    ZR_W_MULT_2_32,
+    ZR_ZVAL_INSIDE,
+    ZR_ZVAL_WRAP,
+    ZR_D_CALLED_WIDE,
+    ZR_D_SKIPPED
+};
+#define ZRL_LABELS "ZToDepthExc_threw", "DepthToZExc_threw", "standard_frustum", "orthographic", "perspective", "zmin_equals_zmax", "zmax_lt_zmin", "width_fits_int", "width_gt_INT_MAX", "width_gt_UINT_MAX", "width_nonzero_multiple_of_2^32", "zval_inside_range", "zval_above_zmax_plus_1", "DepthToZ_pair_called_with_width_gt_INT_MAX", "DepthToZ_skipped_conversion_out_of_range"
+
+template <class T> static void frustum_zrange_case (vp::Ctx& c, const char* tn)
+{
+    vp::Src& s = c.s;
+    FP<T>    p;
+    p.ortho    = s.coin ();
+    p.standard = !s.chance (64);
+    p.l = p.b = -1;
+    p.r = p.t = 1;
+    p.n       = (T) s.uniform (0.01, 10.0);
+    p.f       = p.n + (T) s.uniform (0.1, 1000.0);
+    if (!p.standard)
+    {
+        gen_pair<T> (s, p.n, p.f);
+        const T q4 = KT<T>::max () / 4; // domain as in frustum_depth_*
+        p.n        = std::max (-q4, std::min (q4, p.n));
+        p.f        = std::max (-q4, std::min (q4, p.f));
+    }
+    Frustum<T> fr (p.n, p.f, p.l, p.r, p.t, p.b, p.ortho);
+    c.label (p.ortho ? ZR_ORTHO : ZR_PERSP);
+    if (p.standard) c.label (ZR_STANDARD);
+    // ---- the range
+    const long two31 = 1L << 31, two32 = 1L << 32, lim = 1L << 60;
+    long       zmin, width;
+    switch (s.below (6))
+    {
+        case 0: zmin = 0; break;
+        case 1: zmin = -two31; break;
+        case 2: zmin = (long) s.range (-16, 16); break;
+        case 3: zmin = (long) s.range (-two32, two32); break;
+        case 4: zmin = -(1L << (int) s.range (0, 59)); break;
+        default: zmin = (long) s.range (-lim, lim); break;
+    }
+    long j = (long) s.range (-2, 2);
+    switch (s.below (12))
+    {
+        case 0: width = 0; break;
+        case 1: width = (long) s.range (1, 65536); break;
+        case 2: width = two31 - 1 + j; break;              // INT_MAX and neighbours
+        case 3: width = two32 - 1 + j; break;              // UINT_MAX and neighbours
+        case 4: width = 3000000000L + j; break;
+        case 5: width = (long) s.range (two31, two32); break;
+        case 6: width = (long) s.range (1, 1L << 28) * two32 + j; break; // multiples of 2^32 +- small
+        case 7: width = (1L << (int) s.range (31, 60)) + j; break;
+        case 8: width = (long) s.range (two32, lim); break;
+        case 9: width = (long) s.range (1, two31 - 1); break;
+        case 10: width = (long) s.range (1, 1L << 24); break;
+        default: width = (long) s.range (1, 255); break;
+    }
+    if (s.chance (40)) width = -width;
+    long zmax = zmin + width; // |zmin| <= 2^60, |width| <= 2^60 + 2
+    if (zmax > lim) zmax = lim;
+    if (zmax < -lim) zmax = -lim;
+    width   = zmax - zmin;
+    long lo = std::min (zmin, zmax), hi = std::max (zmin, zmax), aw = hi - lo, zval;
+    int  zcls = (int) s.below (5);
+    switch (zcls)
+    {
+        case 0:
+        case 1: zval = (long) s.range (lo, hi); break;
+        case 2: zval = zmax + (long) s.range (0, 3); break; // around the zval > zmax+1 wrap
+        case 3: zval = lo - (long) s.range (0, 3); break;
+        default: zval = (long) s.range (lo - aw - 2, hi + aw + 2); break;
+    }
+    if (width == 0) c.label (ZR_W_ZERO);
+    if (width < 0) c.label (ZR_W_NEG);
+    if (aw <= (long) INT_MAX) c.label (ZR_W_FITS_INT);
+    if (aw > (long) INT_MAX) c.label (ZR_W_GT_INTMAX);
+    if (aw > (long) UINT_MAX) c.label (ZR_W_GT_UINTMAX);
+    bool mult32 = width != 0 && width % two32 == 0;
+    if (mult32) c.label (ZR_W_MULT_2_32);
+    bool inside = zval >= lo && zval <= hi;
+    if (inside) c.label (ZR_ZVAL_INSIDE);
+    if (zval > zmax + 1) c.label (ZR_ZVAL_WRAP);
+    VP_NOTE (c, tn << " " << fstr (p) << " zval=" << zval << " zmin=" << zmin << " zmax=" << zmax);
+    // ---- ZToDepthExc / ZToDepth  (no signed overflow: |zval|, |zmin|, |zmax| < 2^62; long -> int narrowing is
+    //      implementation-defined (modulo 2^32), not undefined)
+    {
+        T   C  = 0;
+        int th = call_checked ([&] { C = fr.ZToDepthExc (zval, zmin, zmax); });
+        T   U  = fr.ZToDepth (zval, zmin, zmax);
+        c.nt (aw > (long) INT_MAX || th != TH_NONE);
+        if (th != TH_NONE)
+        {
+            c.label (ZR_THREW_Z);
+            VP_REQUIRE (c, th == TH_DOMAIN, "frustum-ZToDepth-wide/exception-type", tn << " ZToDepthExc threw " << thname (th));
+            VP_REQUIRE (c, !(p.standard && inside && width > 0 && aw <= (long) INT_MAX), "frustum-ZToDepth-wide/threw-on-standard-frustum", tn << " ZToDepthExc(" << zval << "," << zmin << "," << zmax << ") threw on " << fstr (p));
+        }
+        else
+        {
+            VP_REQUIRE (c, width != 0, "frustum-ZToDepth-wide/no-throw-for-empty-range", tn << " ZToDepthExc(" << zval << "," << zmin << "," << zmax << ") returned " << C << " although zmax == zmin");
+            VP_REQUIRE (c, same<T> (C, U), "frustum-ZToDepth-wide/bits-differ", tn << " ZToDepthExc(" << zval << "," << zmin << "," << zmax << ") = " << C << " but ZToDepth = " << U << " on " << fstr (p));
+        }
+    }
+    // ---- DepthToZExc / DepthToZ
+    {
+        T depth;
+        switch (s.below (4))
+        {
+            case 0:
+            case 1: depth = -(T) s.uniform (0.01, 1000.0); break;
+            case 2: // inside the frustum: Zp in [-1,1]
+            {
+                T u   = (T) s.unit ();
+                depth = -(p.n + u * (p.f - p.n));
+                break;
+            }
+            default: depth = s.coin () ? gen::nice<T> (s) : gsigned<T> (s); break;
+        }
+        depth = finite_clamp (depth);
+        VP_NOTE (c, "depth=" << depth);
+        if (!depth_to_z_callable (p, depth, zmin, zmax))
+            c.label (ZR_D_SKIPPED); // conversion of 0.5*(Zp+1)*zdiff to long undefined in both forms: outside the domain
+        else
+        {
+            long C  = 0;
+            int  th = call_checked ([&] { C = fr.DepthToZExc (depth, zmin, zmax); });
+            if (th != TH_NONE)
+            {
+                // the unchecked form is not executed after a throw: it would convert an overflowed value to long
+                c.label (ZR_THREW_D);
+                c.nt ();
+                VP_REQUIRE (c, th == TH_DOMAIN, "frustum-DepthToZ-wide/exception-type", tn << " DepthToZExc threw " << thname (th));
+                VP_REQUIRE (c, !(p.standard && depth <= -(T) 0.01 && depth >= -(T) 1000), "frustum-DepthToZ-wide/threw-on-standard-frustum", tn << " DepthToZExc(" << depth << "," << zmin << "," << zmax << ") threw on " << fstr (p));
+            }
+            else
+            {
+                if (aw > (long) INT_MAX)
+                {
+                    c.label (ZR_D_CALLED_WIDE);
+                    c.nt ();
+                }
+                long U = fr.DepthToZ (depth, zmin, zmax);
+                VP_REQUIRE (c, C == U, "frustum-DepthToZ-wide/values-differ", tn << " DepthToZExc(" << depth << "," << zmin << "," << zmax << ") = " << C << " but DepthToZ = " << U << " on " << fstr (p));
+            }
+        }
+    }
+}
+#define ZRL_RULE "near/far: 3/4 standard else a pair whose difference runs over {0, denormal, ..., huge}; z-buffer range over the long arguments' range without signed overflow (|values| <= 2^60): zmin from {0, -2^31, small, |.| <= 2^32, -2^j, any}, zmax - zmin from {0, 1..65536, INT_MAX+-2, UINT_MAX+-2, 3e9+-2, [2^31,2^32], k 2^32 +-2, 2^j +-2 (j in 31..60), [2^32,2^60], [1,2^31), small}, negated 1/6 of the time; zval inside / at the zval > zmax+1 wrap / below / far outside; depth from {ordinary, inside the frustum, nice/any}; DepthToZ pair only where 0.5*(Zp+1)*zdiff converts to long (else skipped and labelled); non-trivial = width beyond INT_MAX, or a checked form threw"
+#define ZRL_REQ "ZToDepthExc_threw", "standard_frustum", "orthographic", "perspective", "zmin_equals_zmax", "zmax_lt_zmin", "width_fits_int", "width_gt_INT_MAX", "width_gt_UINT_MAX", "width_nonzero_multiple_of_2^32", "zval_inside_range", "zval_above_zmax_plus_1", "DepthToZ_pair_called_with_width_gt_INT_MAX"
+VP_RANDOM (frustum_zrange_f, 200000, 4000000, ZRL_RULE) { frustum_zrange_case<float> (c, "Frustumf"); }
+VP_LABELS (frustum_zrange_f, ZRL_LABELS)
+VP_REQUIRE_LABELS (frustum_zrange_f, ZRL_REQ)
+VP_RANDOM (frustum_zrange_d, 200000, 4000000, ZRL_RULE) { frustum_zrange_case<double> (c, "Frustumd"); }
+VP_LABELS (frustum_zrange_d, ZRL_LABELS)
+VP_REQUIRE_LABELS (frustum_zrange_d, ZRL_REQ)
 
 // ---- 4d. setExc vs set vs the (near, far, fovx, fovy, aspect) constructor
 #define FSET_LABELS "threw", "fovx_zero", "fovy_zero", "both_zero", "both_nonzero", "aspect_zero"
